@@ -74,6 +74,8 @@ func runC15Lookups(c *Ctx) {
 			{Op: "recv", Arg: ":me!u@h JOIN #Chan[1]"}, {Op: "recv", Arg: ":srv 353 me = #Chan[1] :me @Bob[a] +carl\\x d^e"}, {Op: "recv", Arg: ":me!u@h JOIN &loc~"}, {Op: "recv", Arg: ":srv 353 me = &loc~ :me Bob[a]"},
 			// members that arrive by JOIN (their own spelling, not the server's list), sorting before and after the existing ones
 			{Op: "recv", Arg: ":Zed!z@h JOIN #Chan[1]"}, {Op: "recv", Arg: ":Alice^!a@h JOIN #Chan[1]"}, {Op: "recv", Arg: ":[Xx]!x@h JOIN &loc~"}, {Op: "recv", Arg: ":Zed!z@h JOIN &loc~"},
+			// a "safe" channel: its id is upper case by grammar, but looking it up is case-insensitive like everything else
+			{Op: "recv", Arg: ":me!u@h JOIN !AB3DEsafe"}, {Op: "recv", Arg: ":srv 353 me = !AB3DEsafe :me Bob[a]"},
 			{Op: "barrier"}, {Op: "lookups"}}}
 		res := c.RunSession(s)
 		if res.Crashed || res.Wedged || len(res.Panics) > 0 {
